@@ -69,3 +69,11 @@ Definition g_copy (s : bytes) (a : Z) (y : bytes) : R bytes :=
   if (a <? 0) || (g_len s <? a) then Pan
   else let k := Nat.min (length y) (length s - Z.to_nat a) in
        Val (firstn (Z.to_nat a) s ++ firstn k y ++ skipn (Z.to_nat a + k) s).
+
+(* binary.BigEndian.Uint32 / Uint64 *)
+Definition g_be32 (s : bytes) : R Z := if (length s <? 4)%nat then Pan else Val (Z.of_N (be (firstn 4 s))).
+Definition g_be64 (s : bytes) : R Z := if (length s <? 8)%nat then Pan else Val (Z.of_N (be (firstn 8 s))).
+(* binary.BigEndian.PutUint32 / PutUint64 (s[a:], v): n bytes, most significant first *)
+Definition g_putn (n : nat) (s : bytes) (a v : Z) : R bytes :=
+  if (a <? 0) || (g_len s <? a + Z.of_nat n) then Pan
+  else Val (firstn (Z.to_nat a) s ++ to_be n (Z.to_N (v mod 2 ^ (8 * Z.of_nat n))) ++ skipn (Z.to_nat a + n) s).
